@@ -103,6 +103,8 @@ QUICK_MICRO = ["m03_star", "m05_opt", "m07_nullable_rule", "m11_deep", "e02_cond
                "o09_choice_commit_rule", "o11_choice_star", "o12_choice_cond_elide_rename",
                "m12_loop_in_recursive", "n10_rename_nameless_creation", "x14_prefix_postfix"]
 QUICK_SKEL = {"fe", "m03_star", "k01_noskip", "q01_parts", "o03_choice_rule", "ex_json"}
+# units that get the bounded native run (C16 relational clause) although Verus verifies all their functions
+REL_UNITS = {"m03_star", "m05_opt", "m11_deep", "ex_json", "ex_toml", "q01_parts", "x07_mixed", "p01_pred_alt", "n04_marker_loop", "e02_cond", "t02_return_cond"}
 QUICK_EX = ["calc", "json", "l", "toml"]
 
 
@@ -135,6 +137,7 @@ def corpus(tier):
                     units.append(dict(name="tf_" + f[:-4], kind="grammar", src=os.path.join(td, f), optional=True))
     for u in units:
         u["skel"] = (tier == "thorough") or (u["name"] in QUICK_SKEL)
+        u["tier"] = tier
     return units
 
 
@@ -289,7 +292,8 @@ def verify_unit(unit, gen_text, timeout=1500):
         grammar_text = open(gpath).read()
     except OSError:
         grammar_text = ""
-    key = sha(gen_text, grammar_text, tool_hash(), json.dumps(VERUS_FLAGS), "skel" if unit["skel"] else "noskel")
+    rel = unit["name"] in REL_UNITS or (unit.get("tier") == "thorough" and unit["kind"] == "grammar" and not unit["name"].startswith("kf_"))
+    key = sha(gen_text, grammar_text, tool_hash(), json.dumps(VERUS_FLAGS), "skel" if unit["skel"] else "noskel", "rel" if rel else "norel")
     cpath = os.path.join(RESULTS, key + ".json")
     if os.path.exists(cpath):
         try:
@@ -382,6 +386,10 @@ def verify_unit(unit, gen_text, timeout=1500):
         # E13 functions are verified, but the frame of an abandoned alternative is assumed at every
         # set_state call: the bounded stand-in keeps running for them
         ext = list(ext) + ["%s (verified under E13; frame of abandoned alternatives assumed)" % f for f in e13]
+    if not ext and rel:
+        # C16 (and the other oracles) through the bounded native harness although every function is
+        # verified: the two-run relational statement of C16 is not expressible as a contract
+        ext = ["<bounded run for the relational clause of C16: parse with and without the skipped tokens>"]
     rejected = res["status"] in ("front_end_error", "verus_failed", "needs_contract")
     if rejected:
         # the verifier could not ingest the extracted text at all: nothing is proved for this unit; the
